@@ -30,6 +30,10 @@ func ruleC15(c *Check) {
 	c.bindOwnerGuard("C15.3")
 	c.indexEntriesCarryNoRecord("C15.11")
 	c.genesisImportValidates("C15.12")
+	c.genesisCoverage("C15.13")
+	// stored price terms correspond to the pricing text also for a price of zero (kept as an explicit zero coin)
+	c.priceNonEmpty("C15.14", c.handFuncs("keeper"))
+	c.genesisImportsAll("C15.13")
 	ents := map[string]*Entry{}
 	for _, e := range c.entries("C15.1") {
 		ents[e.Msg] = e
@@ -1382,6 +1386,81 @@ func (c *Check) notFoundAgreement(rule string, grpc, legacy []querySig) {
 		sort.Strings(ks)
 		return strings.Join(ks, ",")
 	}
+	// tests of the request's own fields (a length, an address format) that reject: the same on both routes, written over
+	// the lower-cased field names
+	var normArg func(t *Term) *Term
+	normArg = func(t *Term) *Term {
+		t = stripConv(t)
+		if strings.HasPrefix(t.Op, ".Query") && len(t.A) == 1 {
+			return atom("$" + strings.ToLower(t.Op[strings.LastIndex(t.Op, ".")+1:]))
+		}
+		if len(t.A) == 0 {
+			return t
+		}
+		n := &Term{Op: t.Op, At: t.At}
+		for _, a := range t.A {
+			n.A = append(n.A, normArg(a))
+		}
+		return n
+	}
+	var argTests func(f *Func, set map[string]bool, depth int)
+	argTests = func(f *Func, set map[string]bool, depth int) {
+		for _, pa := range c.P.PathsOf(f) {
+			if pa.Exit != ExitRevert {
+				continue
+			}
+			var last *Event
+			for _, ev := range pa.Events {
+				if ev.Kind == EvFact {
+					last = ev
+				}
+			}
+			if last == nil {
+				continue
+			}
+			ft := last.Fact.T
+			if last.Fact.Neg && ft.Op == "ok" && len(ft.A) == 1 && depth < 2 {
+				if h := c.P.FuncNamed(stripConv(ft.A[0]).Op); h != nil && h.Body != nil && h.isHandWritten() && h != f && (h.pkgName() == "keeper" || h.pkgName() == "service") {
+					argTests(h, set, depth+1)
+					continue
+				}
+			}
+			mentionsField, isLookup := false, false
+			nt := normArg(ft)
+			nt.Walk(func(t *Term) bool {
+				if t.Op == "" && strings.HasPrefix(t.At, "$") {
+					mentionsField = true
+				}
+				if t.Op == "res" && len(t.A) == 2 {
+					if g := c.P.FuncNamed(stripConv(t.A[1]).Op); g != nil && g.Body != nil && g.pkgName() == "keeper" {
+						isLookup = true
+					}
+				}
+				if strings.Contains(t.Op, "MarshalJSON") || strings.Contains(t.Op, "UnmarshalJSON") || strings.Contains(t.Op, "Paginate") {
+					isLookup = true
+				}
+				return true
+			})
+			if !mentionsField || isLookup {
+				continue
+			}
+			k := nt.String()
+			if last.Fact.Neg {
+				k = "¬" + k
+			}
+			set[k] = true
+		}
+	}
+	argSet := func(f *Func) string {
+		set := map[string]bool{}
+		argTests(f, set, 0)
+		var ks []string
+		for k := range set {
+			ks = append(ks, k)
+		}
+		sort.Strings(ks)
+		return strings.Join(ks, " ; ")
+	}
 	n := 0
 	for _, g := range grpc {
 		var cands []querySig
@@ -1394,6 +1473,17 @@ func (c *Check) notFoundAgreement(rule string, grpc, legacy []querySig) {
 			continue
 		}
 		n++
+		ga := argSet(g.fn)
+		okA := false
+		var gotA []string
+		for _, l := range cands {
+			la := argSet(l.fn)
+			gotA = append(gotA, l.name+":{"+la+"}")
+			if la == ga {
+				okA = true
+			}
+		}
+		c.req(okA, rule, "argument-checks:"+g.name, g.fn.Body.Pos(), "the gRPC method turns a request away on the tests {"+ga+"} of its fields; its legacy counterpart on the same — "+strings.Join(gotA, " "))
 		gc := causes(g.fn)
 		ok := false
 		var got []string
